@@ -551,6 +551,8 @@ func Run(c *vl.Ctx) {
 	t1 := time.Now()
 	fmt.Printf("C15: (i) %d executions in %.1fs (%d cpu-s)\n", t.exec, t1.Sub(t0).Seconds(), t.cpu/1000)
 	nat := nativeRuns(c, gs)
+	nLarge := largeGraphRuns(c)
+	c.Count("large_graphs_through_the_binary", int64(nLarge))
 	fmt.Printf("C15: %d native builds in %.1fs\n", nat, time.Since(t1).Seconds())
 
 	sort.Strings(t.incomplete)
@@ -594,6 +596,195 @@ func Run(c *vl.Ctx) {
 			"rewriter_report":                    strings.Split(strings.TrimSpace(e.Report), "\n"),
 		},
 	})
+}
+
+// ---------------------------------------------------------------------------------
+// large import graphs through the real binary: trees, chains, stars, ladders of 40-90 modules
+// and long cycles. The three- and four-module graphs above cannot show a limit on how many
+// modules may be in flight at once; these can. A compile that does not finish in 120 s (it
+// takes under a second) is repeated twice with 300 s before it is called a hang.
+
+type bigGraph struct {
+	id    string
+	edges map[int][]int // module index -> imported module indices (0 = main)
+	n     int
+	cyc   bool
+}
+
+func bigGraphs() []bigGraph {
+	var out []bigGraph
+	tree := func(fan, depth int) bigGraph {
+		g := bigGraph{id: fmt.Sprintf("tree(fan=%d,depth=%d)", fan, depth), edges: map[int][]int{}}
+		level := []int{0}
+		g.n = 1
+		for d := 0; d < depth; d++ {
+			var next []int
+			for _, m := range level {
+				for k := 0; k < fan; k++ {
+					g.edges[m] = append(g.edges[m], g.n)
+					next = append(next, g.n)
+					g.n++
+				}
+			}
+			level = next
+		}
+		return g
+	}
+	out = append(out, tree(4, 3), tree(2, 6), tree(8, 2), tree(3, 4))
+	chain := bigGraph{id: "chain(64)", edges: map[int][]int{}, n: 64}
+	for i := 0; i+1 < 64; i++ {
+		chain.edges[i] = []int{i + 1}
+	}
+	out = append(out, chain)
+	star := bigGraph{id: "star(64)", edges: map[int][]int{}, n: 65}
+	for i := 1; i <= 64; i++ {
+		star.edges[0] = append(star.edges[0], i)
+	}
+	out = append(out, star)
+	ladder := bigGraph{id: "ladder(2x24)", edges: map[int][]int{0: {1, 2}}, n: 49}
+	for r := 0; r+1 < 24; r++ {
+		a, b := 1+2*r, 2+2*r
+		ladder.edges[a] = []int{a + 2, b + 2}
+		ladder.edges[b] = []int{a + 2, b + 2}
+	}
+	out = append(out, ladder)
+	cyc := bigGraph{id: "cycle(40)", edges: map[int][]int{}, n: 40, cyc: true}
+	for i := 0; i < 40; i++ {
+		cyc.edges[i] = []int{(i + 1) % 40}
+	}
+	out = append(out, cyc)
+	deep := tree(3, 4)
+	deep.id = "tree(fan=3,depth=4)+back-edge-from-a-leaf"
+	deep.cyc = true
+	deep.edges[deep.n-1] = []int{1}
+	out = append(out, deep)
+	wide := tree(4, 3)
+	wide.id = "tree(fan=4,depth=3)+self-import-in-a-leaf"
+	wide.cyc = true
+	wide.edges[wide.n-1] = []int{wide.n - 1}
+	out = append(out, wide)
+	return out
+}
+
+func (g bigGraph) name(i int) string {
+	if i == 0 {
+		return "main"
+	}
+	return fmt.Sprintf("m%d", i)
+}
+
+func (g bigGraph) files() map[string]string {
+	files := map[string]string{}
+	for i := 0; i < g.n; i++ {
+		var b strings.Builder
+		if i == 0 {
+			b.WriteString("import \"std/io\";\n")
+		}
+		for _, j := range g.edges[i] {
+			fmt.Fprintf(&b, "import \"proj/%s\";\n", g.name(j))
+		}
+		fmt.Fprintf(&b, "fn V%d() -> i64 {\n    return %d", i, i+1)
+		for _, j := range g.edges[i] {
+			fmt.Fprintf(&b, " + %s::V%d()", g.name(j), j)
+		}
+		b.WriteString(";\n}\n")
+		if i == 0 {
+			b.WriteString("fn main() {\n    io::Println(V0());\n}\n")
+		}
+		files[g.name(i)+".fer"] = b.String()
+	}
+	return files
+}
+
+func (g bigGraph) value() int64 {
+	memo := map[int]int64{}
+	var v func(i int) int64
+	v = func(i int) int64 {
+		if x, ok := memo[i]; ok {
+			return x
+		}
+		s := int64(i + 1)
+		for _, j := range g.edges[i] {
+			s += v(j)
+		}
+		memo[i] = s
+		return s
+	}
+	return v(0)
+}
+
+func largeGraphRuns(c *vl.Ctx) int {
+	gs := bigGraphs()
+	rn := run.New(c)
+	rn.CompileTimeout = 120 * time.Second
+	for _, g := range gs {
+		if f := os.Getenv("VERIF_FILTER"); f != "" && !strings.Contains("C15/large/"+g.id, f) {
+			continue
+		}
+		for _, procs := range []string{"", "GOMAXPROCS=1", "GOMAXPROCS=3"} {
+			base := rn.NewDir()
+			dir := filepath.Join(base, "proj")
+			files := g.files()
+			run.WriteFiles(dir, files)
+			compile := func() run.Built {
+				if procs == "" {
+					return rn.RealCompileNative(dir, "main.fer")
+				}
+				old := os.Getenv("GOMAXPROCS")
+				os.Setenv("GOMAXPROCS", strings.TrimPrefix(procs, "GOMAXPROCS="))
+				defer os.Setenv("GOMAXPROCS", old)
+				return rn.RealCompileNative(dir, "main.fer")
+			}
+			b := compile()
+			if b.Compile.Timeout {
+				rn.CompileTimeout = 300 * time.Second
+				n := 1
+				for k := 0; k < 2 && b.Compile.Timeout; k++ {
+					b = compile()
+					if b.Compile.Timeout {
+						n++
+					}
+				}
+				rn.CompileTimeout = 120 * time.Second
+				if n < 3 {
+					c.Count("large_graph_slow_but_terminating", 1)
+				}
+			}
+			id := "C15/large/" + g.id
+			if procs != "" {
+				id += "/" + procs
+			}
+			rf := map[string]string{"main.fer": files["main.fer"], "shape.txt": fmt.Sprintf("%s: %d modules\n", g.id, g.n)}
+			c.Distinct(id)
+			out := run.StripANSI(b.Compile.Stdout + b.Compile.Stderr)
+			switch {
+			case b.Compile.Timeout:
+				c.Outcome("large:hang")
+				c.Fail(vl.Fail{Case: id, Obs: fmt.Sprintf("import graph %s (%d modules): the compiler did not finish (120 s, then 300 s twice)", g.id, g.n), Files: rf})
+			case g.cyc:
+				if b.Compile.OK() || b.Exists || !strings.Contains(out, "circular import") {
+					c.Outcome("large:cycle-not-rejected")
+					c.Fail(vl.Fail{Case: id, Obs: fmt.Sprintf("import graph %s has a cycle: expected a circular-import error and no executable, got %s, executable=%v: %s", g.id, b.Compile.Term(), b.Exists, firstLine(out)), Files: rf})
+				} else {
+					c.Outcome("large:cycle-rejected")
+				}
+			case !b.Compile.OK() || !b.Exists:
+				c.Outcome("large:dag-not-built")
+				c.Fail(vl.Fail{Case: id, Obs: fmt.Sprintf("import graph %s (acyclic, %d modules): not built: %s: %s", g.id, g.n, b.Compile.Term(), firstLine(out)), Files: rf})
+			default:
+				p := rn.Exec(b)
+				want := fmt.Sprintf("%d\n", g.value())
+				if !p.OK() || p.Stdout != want {
+					c.Outcome("large:wrong-sum")
+					c.Fail(vl.Fail{Case: id, Obs: fmt.Sprintf("import graph %s: expected output %q, got %q (%s)", g.id, want, p.Stdout, p.Term()), Files: rf})
+				} else {
+					c.Outcome("large:sum-correct")
+				}
+			}
+			os.RemoveAll(base)
+		}
+	}
+	return len(gs)
 }
 
 // nativeRuns builds every acyclic graph with the real binary and checks the printed sum.
